@@ -311,6 +311,10 @@ func lockRecs(rs []*lock.LockRecord) term {
 }
 
 func ResultT(r *t_aio.Result) term {
+	if r == nil {
+		// a committed batch must have a result for every command; a nil slot is reported as an impossible row count
+		return C("RAlter", int64(-999))
+	}
 	switch r.Kind {
 	case t_aio.ReadPromise:
 		return C("RPromises", r.ReadPromise.RowsReturned, r.ReadPromise.LastSortId, promiseRecs(r.ReadPromise.Records))
